@@ -154,13 +154,27 @@ pub struct World {
 
 thread_local! {
     static LAST_PANIC: std::cell::RefCell<Option<String>> = std::cell::RefCell::new(None);
+    static GUARD: std::cell::Cell<u32> = std::cell::Cell::new(0);
 }
 
+/// Panics raised while a contract entry point runs are recorded (and judged by C16); panics of the
+/// machinery itself are printed.
 pub fn install_quiet_panic_hook() {
     std::panic::set_hook(Box::new(|info| {
         let msg = format!("{info}");
+        if GUARD.with(|g| g.get()) == 0 {
+            eprintln!("MACHINERY PANIC: {msg}");
+        }
         LAST_PANIC.with(|p| *p.borrow_mut() = Some(msg));
     }));
+}
+
+/// run a contract entry point under catch_unwind with the quiet hook armed
+pub fn guarded<R>(f: impl FnOnce() -> R) -> std::thread::Result<R> {
+    GUARD.with(|g| g.set(g.get() + 1));
+    let r = catch_unwind(AssertUnwindSafe(f));
+    GUARD.with(|g| g.set(g.get() - 1));
+    r
 }
 
 fn take_panic() -> String {
@@ -276,7 +290,7 @@ impl World {
         let q = NoQuerier;
         let r = {
             let deps = DepsMut { storage: &mut self.kv, api: &api, querier: QuerierWrapper::new(&q) };
-            catch_unwind(AssertUnwindSafe(|| staking::contract::instantiate(deps, env, info, msg)))
+            guarded(|| staking::contract::instantiate(deps, env, info, msg))
         };
         let res = match r {
             Err(_) => {
@@ -328,7 +342,7 @@ impl World {
         let q = NoQuerier;
         let r = {
             let deps = DepsMut { storage: &mut self.kv, api: &api, querier: QuerierWrapper::new(&q) };
-            catch_unwind(AssertUnwindSafe(|| staking::contract::execute(deps, env, info, msg)))
+            guarded(|| staking::contract::execute(deps, env, info, msg))
         };
         match r {
             Err(_) => {
@@ -397,7 +411,7 @@ impl World {
         let id = rep.id;
         let r = {
             let deps = DepsMut { storage: &mut self.kv, api: &api, querier: QuerierWrapper::new(&q) };
-            catch_unwind(AssertUnwindSafe(|| staking::contract::reply(deps, env, rep)))
+            guarded(|| staking::contract::reply(deps, env, rep))
         };
         match r {
             Err(_) => {
@@ -650,7 +664,7 @@ impl World {
         let q = NoQuerier;
         let r = {
             let deps = DepsMut { storage: &mut self.kv, api: &api, querier: QuerierWrapper::new(&q) };
-            catch_unwind(AssertUnwindSafe(|| staking::contract::sudo(deps, env, msg)))
+            guarded(|| staking::contract::sudo(deps, env, msg))
         };
         let res = match r {
             Err(_) => {
@@ -729,12 +743,56 @@ impl World {
         self.finish(snap, res, out)
     }
 
+    /// call `reply` directly as its own transaction (hostile probe; the chain never does this)
+    pub fn raw_reply(&mut self, rep: Reply) -> TxOut {
+        let snap = self.clone();
+        let mut out = TxOut::default();
+        let res = self.call_reply(rep, &mut out, 0);
+        self.finish(snap, res, out)
+    }
+
+    /// call `migrate` as a transaction
+    pub fn migrate(&mut self, msg: staking::msg::MigrateMsg) -> TxOut {
+        let snap = self.clone();
+        let mut out = TxOut::default();
+        let env = self.env();
+        let api = SimApi { prefix: PROTO_PREFIX };
+        let q = NoQuerier;
+        let r = {
+            let deps = DepsMut { storage: &mut self.kv, api: &api, querier: QuerierWrapper::new(&q) };
+            guarded(|| staking::contract::migrate(deps, env, msg))
+        };
+        let res = match r {
+            Err(_) => {
+                out.panicked = Some(take_panic());
+                Err("panic".to_string())
+            }
+            Ok(Err(e)) => Err(e.to_string()),
+            Ok(Ok(resp)) => self.dispatch_all(resp, &mut out, 0),
+        };
+        self.finish(snap, res, out)
+    }
+
+    /// raw query result (binary) or error; panics are reported as Err("PANIC: ..")
+    pub fn query_raw(&self, msg: QueryMsg) -> Result<Vec<u8>, String> {
+        let env = self.env();
+        let api = SimApi { prefix: PROTO_PREFIX };
+        let q = NoQuerier;
+        let deps = cosmwasm_std::Deps { storage: &self.kv, api: &api, querier: QuerierWrapper::new(&q) };
+        let r = guarded(|| staking::contract::query(deps, env, msg));
+        match r {
+            Err(_) => Err(format!("PANIC: {}", take_panic())),
+            Ok(Err(e)) => Err(e.to_string()),
+            Ok(Ok(b)) => Ok(b.to_vec()),
+        }
+    }
+
     pub fn query<T: DeserializeOwned>(&self, msg: QueryMsg) -> Result<T, String> {
         let env = self.env();
         let api = SimApi { prefix: PROTO_PREFIX };
         let q = NoQuerier;
         let deps = cosmwasm_std::Deps { storage: &self.kv, api: &api, querier: QuerierWrapper::new(&q) };
-        let r = catch_unwind(AssertUnwindSafe(|| staking::contract::query(deps, env, msg)));
+        let r = guarded(|| staking::contract::query(deps, env, msg));
         match r {
             Err(_) => Err(format!("PANIC: {}", take_panic())),
             Ok(Err(e)) => Err(e.to_string()),
